@@ -13,8 +13,9 @@
   Quirks kept on purpose:
     * a wrong MAC raises CryptoException, which `except ValueError` does NOT catch: the handler aborts, state unchanged;
       a malformed key (wrong length / low-order point) raises ValueError: the circuit is removed;
-    * the hop is appended BEFORE the candidate list is decrypted; if that (or send_extend) fails the handler aborts with
-      the hop appended, no unverified hop and — since fix 4ca5f25 — no retry cache (the circuit then waits for the sweep);
+    * the hop is appended BEFORE the candidate list is decrypted; an undecodable list removes the circuit (fix 2f0e945);
+      if send_extend raises (unparseable candidate key) the handler aborts with the hop appended, no unverified hop
+      and — since fix 4ca5f25 — no retry cache (the circuit then waits for the sweep);
     * the relay pairs a CREATED with its pending extend by the identifier and (since fix cc86df2) the reserved outgoing
       circuit id; the sender is ignored;
       since fix 172d874 it refuses to pair when the outgoing circuit id it reserved is meanwhile in use at this node.
@@ -168,9 +169,9 @@ def ours [DecidableEq Tag] (C : Crypto Tag Sess Blob) (me : Key) (cid : Nat) (c 
         let c1 : Circ Sess := { c with unverified := none, hops := c.hops ++ [⟨b, keys⟩] }
         if c1.hops.length < c1.goal then                   -- CIRCUIT_STATE_EXTENDING
           match C.dec keys cands with
-          | none => (some { c1 with retry := none }, [])   -- decrypt/unpack (or send_extend) raises after the hop was
-                                                           -- appended; since fix 4ca5f25 the retry cache of the completed
-                                                           -- attempt has been popped before (it used to survive and fire)
+          | none => (none, [])      -- decrypt/unpack raises after the hop was appended: since fix 4ca5f25 the retry
+                                    -- cache of the completed attempt has been popped before (it used to survive and
+                                    -- fire), and since fix 2f0e945 (property C09) the circuit is removed
           | some cl => extendAfterAccept me cid c1 cl env
         else (some { c1 with retry := none }, [])          -- CIRCUIT_STATE_READY: pop the retry cache
 
@@ -249,6 +250,21 @@ def pairing? (n : Node Sess) (cid ident : Nat) : Option CreateReq :=
   | some req => if req.toCid = cid then some req else none
   | none => none
 
+/-- the relay branch of on_created once the pending extend `req` is known (same text as inside `onCreated`) -/
+def relayPairing (C : Crypto Tag Sess Blob) (n : Node Sess) (ident : Nat) (req : CreateReq)
+    (key : Option Wire) (auth : Tag) (cands : Blob) : Node Sess × List (Out Tag Blob) :=
+  let n1 : Node Sess := { n with creates := upd n.creates ident none }
+  match n1.exits req.fromCid with
+  | none => (n1, [])
+  | some ex =>
+    if ex.peer != req.peer then (n1, [])
+    else if (n1.circuits req.toCid).isSome || (n1.relays req.toCid).isSome || (n1.exits req.toCid).isSome then (n1, [])
+    else
+    ({ n1 with exits := upd n1.exits req.fromCid none,
+               relays := upd (upd n1.relays req.toCid (some ⟨req.fromCid, req.peer, ex.keys, false⟩))
+                             req.fromCid (some ⟨req.toCid, req.toPeer, ex.keys, true⟩) },
+     [⟨req.peer, .extended req.fromCid req.extendIdent key auth cands⟩])
+
 /-- on_created -/
 def onCreated [DecidableEq Tag] (C : Crypto Tag Sess Blob) (n : Node Sess) (cid ident : Nat)
     (key : Option Wire) (auth : Tag) (cands : Blob) (env : Env) : Node Sess × List (Out Tag Blob) :=
@@ -273,6 +289,46 @@ def onCreated [DecidableEq Tag] (C : Crypto Tag Sess Blob) (n : Node Sess) (cid 
 def onExtended [DecidableEq Tag] (C : Crypto Tag Sess Blob) (n : Node Sess) (cid ident : Nat)
     (key : Option Wire) (auth : Tag) (cands : Blob) (env : Env) : Node Sess × List (Out Tag Blob) :=
   originAnswer C n cid ident key auth cands env
+
+/-! ### the handlers as `step` runs them: acceptance guards taken from the GENERATED definitions
+
+`onCreated` / `onExtended` / `originAnswer` above are the hand-written reference; `onCreatedG` / `onExtendedG` below are
+what `step` (and the driver) execute.  They ask the translated guards of GenCrypto.lean (`genCreatedPairs`,
+`genCreatedAccepts`, `genExtendedAccepts`) whether to pair / to call `_ours_on_created_extended`, so a change of the
+identifier check in community.py changes these definitions; `Lemmas.lean` proves them equal to the reference (that
+proof is what breaks). -/
+
+/-- originator branch with an arbitrary guard over (a retry cache exists for the circuit, its identifier equals the
+    answer's): `cache = request_cache.get(RetryRequestCache, circuit_id)`; calling `_ours_on_created_extended` for a
+    circuit id that is not in `circuits` raises KeyError (nothing changes) -/
+def originAnswerG [DecidableEq Tag] (guard : Bool → Bool → Bool) (C : Crypto Tag Sess Blob) (n : Node Sess)
+    (cid ident : Nat) (key : Option Wire) (auth : Tag) (cands : Blob) (env : Env) : Node Sess × List (Out Tag Blob) :=
+  match n.circuits cid with
+  | none => (n, [])
+  | some c =>
+    let hasCache := c.retry.isSome
+    let identEq := match c.retry with
+      | some r => r.ident == ident
+      | none => false
+    if guard hasCache identEq then n.setCirc cid (ours C n.me cid c key auth cands env) else (n, [])
+
+/-- on_created with the translated guards -/
+def onCreatedG [DecidableEq Tag] (C : Crypto Tag Sess Blob) (n : Node Sess) (cid ident : Nat)
+    (key : Option Wire) (auth : Tag) (cands : Blob) (env : Env) : Node Sess × List (Out Tag Blob) :=
+  let hasRequest := (n.creates ident).isSome
+  let toCidEq := match n.creates ident with
+    | some r => r.toCid == cid
+    | none => false
+  if genCreatedPairs hasRequest toCidEq then
+    match n.creates ident with
+    | some req => relayPairing C n ident req key auth cands
+    | none => (n, [])
+  else originAnswerG (genCreatedAccepts hasRequest toCidEq) C n cid ident key auth cands env
+
+/-- on_extended with the translated guard -/
+def onExtendedG [DecidableEq Tag] (C : Crypto Tag Sess Blob) (n : Node Sess) (cid ident : Nat)
+    (key : Option Wire) (auth : Tag) (cands : Blob) (env : Env) : Node Sess × List (Out Tag Blob) :=
+  originAnswerG genExtendedAccepts C n cid ident key auth cands env
 
 /-- the retry cache of circuit `cid` times out -/
 def retryTimeout (n : Node Sess) (cid : Nat) (env : Env) : Node Sess × List (Out Tag Blob) :=
@@ -354,8 +410,8 @@ inductive Ev (Tag Blob : Type) where
 
 def step [DecidableEq Tag] (C : Crypto Tag Sess Blob) (n : Node Sess) : Ev Tag Blob → Node Sess × List (Out Tag Blob)
   | .createCircuit cid goal re fh env => createCircuit n cid goal re fh env
-  | .created cid ident key auth cands env => onCreated C n cid ident key auth cands env
-  | .extended cid ident key auth cands env => onExtended C n cid ident key auth cands env
+  | .created cid ident key auth cands env => onCreatedG C n cid ident key auth cands env
+  | .extended cid ident key auth cands env => onExtendedG C n cid ident key auth cands env
   | .retryTimeout cid env => retryTimeout n cid env
   | .sendExtend cid cands tries env =>
     match n.circuits cid with
